@@ -1,4 +1,5 @@
 """C18 - all ways of loading a time zone give the same zone (narrow)."""
+from ..rules_r5 import canon_name, type_writers
 from ..e5 import run_e5
 from ..rules_tz import find_key, parse_order, fold_agree, special_names, handover_civil, noop_skip
 
@@ -10,6 +11,8 @@ def run(ctx, rep):
     if "T3" not in rep.configs:
         rep.configs.append("T3")
     prog = ctx.prog("Q")
+    canon_name(rep, prog)
+    type_writers(rep, prog)
     rep.notes.append("Does not decide behavioural equivalence of back-ends, slim vs fat, name case folding, POSIX Display<->parse.")
     run_e5(rep)
     find_key(rep, prog)
